@@ -99,14 +99,14 @@ func (l *VerifLimiter) Startup() {
 
 // Add is what storageWriter's closeFinisher + case opAdd do, with the clock reading given.
 func (l *VerifLimiter) Add(name string, size int64, nowUnix int64) {
-	ai := accessedItem{accessTime: accessTime(nowUnix - l.s.startedAt), sizeKilobytes: uint32(size / 1024)}
+	ai := accessedItem{accessTime: accessTime(nowUnix), sizeKilobytes: uint32(size / 1024)}
 	l.s.withAccessTime[itemName(name)] = ai
 	l.s.sizeBytes += int64(ai.sizeKilobytes * 1024)
 }
 
 // Access is what setAccessTime + case opAccessTime do, with the clock reading given.
 func (l *VerifLimiter) Access(name string, size int64, nowUnix int64) {
-	l.s.withAccessTime[itemName(name)] = accessedItem{accessTime(nowUnix - l.s.startedAt), uint32(size / 1024)}
+	l.s.withAccessTime[itemName(name)] = accessedItem{accessTime(nowUnix), uint32(size / 1024)}
 	l.s.storableAccessedItems[itemName(name)] = storableAccessedItem{nowUnix, uint32(size / 1024)}
 }
 
